@@ -29,6 +29,16 @@ def BOUNDS(tier):
 def cases(tier, seed):
     orders = [2, 3, 4] if tier == 'quick' else [2, 3, 4, 5]
     S = 2 if tier == 'quick' else 4
+    # larger modes: the local systems exceed max_full = 500 unknowns, so the (preconditioned) iterative local solver runs
+    for N in ([10, 10, 10], [8, 9, 10], [10, 10, 9, 8][:4]) if tier == 'quick' else ([10, 10, 10], [8, 9, 10], [10, 10, 9, 8], [10, 9, 10, 9, 8]):
+        for rx, rz in ((3, 2), (4, 2), (2, 1)):
+            for eps in (1e-6, 1e-10):
+                for prec in (None, 'c'):
+                    for st in ('none', 'rank2'):
+                        if st == 'rank2' and eps == 1e-10:
+                            continue
+                        yield {'N': N, 'rx': rx, 'rz': rz, 'form': 'ediv', 'eps': eps, 'prec': prec, 'st': st, 'seed': 0}
+            yield {'N': N, 'rx': rx, 'rz': rz, 'form': 'x/y', 'seed': 0}
     for d in orders:
         sizes = [list(PS[:d])]
         for pos in range(d):
